@@ -334,7 +334,7 @@ fn inproc_job(ctx: &Ctx, job: usize, iters: u64) -> Stats {
 // ------------------------------------------------------------------------------------------ CLI
 
 fn cli_case(ctx: &Ctx, st: &mut Stats, rng: &mut Rng, idx: u64) {
-    let dir = ctx.scratch.join(format!("c12-{}", idx));
+    let dir = ctx.fresh_dir(&format!("c12-{}", idx));
     let _ = std::fs::create_dir_all(&dir);
     let fam = rng.below(10);
     let (input, origin) = gen_input(rng, fam);
@@ -489,7 +489,7 @@ pub fn replay(ctx: &Ctx, _monitor: &str, case: &Value, st: &mut Stats) {
     let get_hex = |k: &str| case.get(k).and_then(|v| v.as_str()).map(unhex);
     if case.get("kind").and_then(|k| k.as_str()) == Some("cli") {
         let old_dir = case.get("dir").and_then(|d| d.as_str()).unwrap_or("").to_string();
-        let dir = ctx.scratch.join("c12-replay");
+        let dir = ctx.fresh_dir("c12-replay");
         let _ = std::fs::create_dir_all(&dir);
         if let Some(b) = get_hex("input_hex") {
             let _ = std::fs::write(dir.join("input.txt"), b);
